@@ -140,9 +140,15 @@ class Device(object):
             limit = self.maxdata
             if len(pkt.data) > limit:
                 self.issue('maxdata', 'host WRTE payload of %d bytes exceeds the device maxdata %d' % (len(pkt.data), limit))
-            self.enqueue(s.q, Packet(b'OKAY', s.remote, s.local))        # send_ready() first
+            order = self.cfg.get('okay_order')
+            late = order == 'late' or (order == 'choice' and self.env.ch.choose('okay-order', 2, (0, 1)) == 1)
+            if not late:
+                self.enqueue(s.q, Packet(b'OKAY', s.remote, s.local))    # adbd: send_ready() before the service sees the data
             if s.sync is not None:
                 s.sync.feed(pkt.data)
+            if late:
+                # protocol.txt does not order a side's READY against its own WRITEs: the reply may overtake the acknowledgement
+                self.enqueue(s.q, Packet(b'OKAY', s.remote, s.local))
         elif c == b'CLSE':
             s = self.find(pkt)
             if s is None:
@@ -213,6 +219,9 @@ class Device(object):
         hold = self.cfg.get('hold')                 # services that never finish (keep the stream live)
         s.out.extend(bytes(c) for c in chunks if c)
         s.finished = not (hold and dest in hold)
+        if dest in (self.cfg.get('endless') or ()):
+            s.endless = True
+            s.finished = False
         self.pump(s)
 
     def pump(self, s):
@@ -222,6 +231,8 @@ class Device(object):
         if die and s.idx == die['stream'] and len(s.wrote) >= die['after'] and s.out:
             s.out.clear()                 # the service dies: the stream is closed instead of the next WRTE
             s.finished = True
+        if getattr(s, 'endless', False) and not s.out:
+            s.out.append(b'more-%d;' % len(s.wrote))       # a command that never finishes (logcat-like)
         if s.out and not s.awaiting_ack:
             payload = s.out.popleft()
             s.wrote.append(payload)
@@ -229,7 +240,8 @@ class Device(object):
             self.enqueue(s.q, Packet(b'WRTE', s.remote, s.local, payload))
         if s.finished and not s.out and (s.eager or not s.awaiting_ack):
             s.dev_closed = True
-            self.enqueue(s.q, Packet(b'CLSE', s.remote, s.local))
+            z = self.cfg.get('zero_clse')       # legacy devices close with zeroed ids
+            self.enqueue(s.q, Packet(b'CLSE', 0 if z in ('a0', 'both') else s.remote, 0 if z in ('a1', 'both') else s.local))
             # adbd forgets the socket at once; the peer's answering CLSE then finds nothing.  The model keeps
             # the entry so that the monitor can tell the answer from a stray packet.
 
